@@ -306,6 +306,9 @@ def _bridge_lemmas(c, p, patt, cols):
         return every(lambda t: c.implies(c.and_(occ(t), n >= 1), lambda: c.and_(
             phi(t, n - 1) <= N - 1, c.forall(0, n, lambda x: phi(t, n - 1) - val(t, x) >= n - 1 - p[x], pattern=_pj(c, t)))))
 
+    def rigid(_z):  # an occurrence of a pattern in a permutation of the SAME length is the identity map, and the two are equal
+        return every(lambda t: c.implies(c.and_(occ(t), n == N), lambda: c.forall(0, n, lambda x: c.and_(t[x] == x, val(t, x) == p[x]), pattern=(lambda x: [t[x], p[x]]) if sym else None)))
+
     def complete(_z):  # an occurrence passes the code's admissibility test at every position
         return every(lambda t: c.implies(occ(t), lambda: valid(t)))
 
@@ -313,6 +316,7 @@ def _bridge_lemmas(c, p, patt, cols):
     return [("incr", 0, n - 1, incr, ()), ("tail", 0, 0, tail, ("incr",)), ("fits", 0, 0, fits, ("tail",)),
             ("sound", 0, n, sound, ()), ("sound_occ", 0, 0, sound_occ, ("sound",)),
             ("gaps", 0, n - 1, gaps, ()), ("gaps_pos", 0, 0, gaps_pos, ("gaps",)), ("low", 0, 0, low, ("gaps",)), ("high", 0, 0, high, ("gaps",)),
+            ("rigid", 0, 0, rigid, ("incr", "tail", "low", "high")),
             ("complete", 0, 0, complete, ("tail", "gaps_pos", "low", "high"))]
 
 
@@ -322,6 +326,18 @@ def occurrence_bridge(c, p, patt):
 
 
 occurrence_bridge.runtime_cap = 80  # every item quantifies over all index tuples: expensive at run time
+
+
+@lemma("containment_respects_sort_order", {"p": "Perm", "q": "Perm"}, props=("C01", "C05"))
+def containment_respects_sort_order(c, p, q):
+    """p occurs in q  =>  p is not longer than q, and if they have the same length they are EQUAL:
+    the order (length, then lexicographic) used to sort a basis is a linear extension of containment"""
+    n, N = c.len(p), c.len(q)
+    return c.forall_tuple(n, lambda t: c.implies(_occ(c, p, q, t), lambda: c.and_(n <= N, c.implies(n == N, lambda: c.forall(0, n, lambda i: p[i] == q[i])))),
+                          universe=(-1, N + 1) if c.mode == "run" else None)
+
+
+containment_respects_sort_order.uses_lemmas = [("occurrence_bridge", lambda p, q: (p, q), ("fits", "rigid"))]
 
 
 def _post(c, p, patt, result, cols):
